@@ -197,6 +197,8 @@ class _E1(ast.NodeTransformer):
                     z = ast.Call(func=ast.Attribute(value=ast.Name(id='np', ctx=ast.Load()), attr='zeros', ctx=ast.Load()), args=[n.args[0]],
                                  keywords=[ast.keyword(arg='dtype', value=_dtype_canon(dt[0]))])
                     return ast.copy_location(ast.BinOp(left=z, op=ast.Add(), right=v), n)
+            if f.attr in ('array', 'asarray') and n.args and isinstance(n.args[0], ast.Tuple):
+                n.args[0] = ast.copy_location(ast.List(elts=n.args[0].elts, ctx=ast.Load()), n.args[0])
             # operator forms
             if f.attr in ('bitwise_and', 'bitwise_or', 'bitwise_xor', 'not_equal', 'equal', 'logical_not') and not n.keywords:
                 if f.attr == 'logical_not' and len(n.args) == 1:
@@ -866,6 +868,26 @@ def _pure_expr(e):
     return True
 
 
+def _total_expr(e):
+    """Pure AND cannot raise: names, constants, identity tests, isinstance, getattr with a default."""
+    if isinstance(e, (ast.Name, ast.Constant)):
+        return True
+    if isinstance(e, ast.Tuple):
+        return all(_total_expr(x) for x in e.elts)
+    if isinstance(e, ast.BoolOp):
+        return all(_total_expr(x) for x in e.values)
+    if isinstance(e, ast.UnaryOp) and isinstance(e.op, ast.Not):
+        return _total_expr(e.operand)
+    if isinstance(e, ast.Compare):
+        return all(isinstance(o, (ast.Is, ast.IsNot)) for o in e.ops) and _total_expr(e.left) and all(_total_expr(c) for c in e.comparators)
+    if isinstance(e, ast.Call) and isinstance(e.func, ast.Name) and not e.keywords:
+        if e.func.id == 'getattr' and len(e.args) == 3:
+            return all(_total_expr(a) for a in e.args)
+        if e.func.id == 'isinstance' and len(e.args) == 2:
+            return _total_expr(e.args[0])
+    return False
+
+
 def _mutated_names(fn):
     """Names that are re-bound more than once, deleted, assigned through (x[i] = .., x.a = ..), augmented, or receive a mutating call."""
     stores = {}
@@ -926,6 +948,7 @@ def _forward_subst(fn, module_exprs=None):
             for a in n.names:
                 special.add((a.asname or a.name).split('.')[0])
     defs = {}
+    local_only = set()          # temporaries whose operands are re-bound elsewhere: usable only within a straight-line span
     for n in ast.walk(fn):
         if isinstance(n, ast.Assign) and len(n.targets) == 1 and isinstance(n.targets[0], ast.Name):
             nm = n.targets[0].id
@@ -936,9 +959,8 @@ def _forward_subst(fn, module_exprs=None):
             free = {x.id for x in ast.walk(n.value) if isinstance(x, ast.Name)}
             if nm in free:
                 continue
-            # operands must be stable; loop/with targets are allowed only when the definition is nested in the construct that binds them
             if any((x in mut) for x in free):
-                continue
+                local_only.add(nm)
             defs[nm] = n
     # Evaluation must not move across effects: between the definition and the first evaluation of a use (on every path) there may
     # only be effect-free statements.  Later re-evaluations of a pure expression over stable operands give the same value and cannot
@@ -1003,6 +1025,10 @@ def _forward_subst(fn, module_exprs=None):
                 if any(x is st for x in h.body):
                     return h, h.body
         return None, None
+    def touches(st, names):
+        """st re-binds, assigns through, augments or calls a mutating method on one of names."""
+        m2, s2 = _mutated_names(st) if not isinstance(st, ast.FunctionDef) else (set(), {})
+        return bool((m2 | set(s2)) & names)
     for nm in list(defs):
         st = defs[nm]
         owner, blk = block_of(st)
@@ -1013,6 +1039,29 @@ def _forward_subst(fn, module_exprs=None):
         rest = blk[i + 1:]
         total = sum(1 for x in ast.walk(fn) if isinstance(x, ast.Name) and x.id == nm and isinstance(x.ctx, ast.Load))
         inside = sum(1 for r in rest for x in ast.walk(r) if isinstance(x, ast.Name) and x.id == nm and isinstance(x.ctx, ast.Load))
+        if nm in local_only:
+            # operands are re-bound somewhere: every use must be in a simple statement of the same block (or a compound header), and
+            # nothing from the definition up to the last use may touch an operand (the last using statement may, after evaluating)
+            free = {x.id for x in ast.walk(st.value) if isinstance(x, ast.Name)} & mut
+            using = [k for k, r in enumerate(rest) if uses(r, nm)]
+            ok_local = inside == total and bool(using)
+            if ok_local:
+                last = using[-1]
+                for k, r in enumerate(rest[:last + 1]):
+                    if isinstance(r, (ast.If, ast.For, ast.While, ast.Try, ast.With)):
+                        hdr = r.test if isinstance(r, (ast.If, ast.While)) else (r.iter if isinstance(r, ast.For) else None)
+                        body_uses = any(uses(x, nm) for x in getattr(r, 'body', []) + getattr(r, 'orelse', []) + getattr(r, 'finalbody', []))
+                        if body_uses or touches(r, free) or hdr is None and uses(r, nm):
+                            ok_local = False
+                            break
+                    elif k < last and touches(r, free):
+                        ok_local = False
+                        break
+            if not ok_local:
+                del defs[nm]
+                continue
+        if _total_expr(st.value) and nm not in local_only and inside == total:
+            continue                # cannot raise, operands never change: may be evaluated anywhere after its definition
         if inside != total or scan(rest, nm) == 'bad':
             # a use after the enclosing block ended (loop / branch), or an effect between definition and first use
             if not (owner is fn and inside == total and scan(rest, nm) != 'bad'):
@@ -1167,6 +1216,55 @@ def _tail_in_branches(iff):
             j += 1
 
 
+def _getattr_default(fn):
+    """try: t = x.a  except AttributeError: t = D      ->   t = getattr(x, 'a', D)"""
+    changed = False
+    for owner in ast.walk(fn):
+        for fld in ('body', 'orelse', 'finalbody'):
+            body = getattr(owner, fld, None)
+            if not (isinstance(body, list) and body and isinstance(body[0], ast.stmt)) or isinstance(owner, ast.Lambda):
+                continue
+            for i, st in enumerate(body):
+                if isinstance(st, ast.Try) and len(st.body) == 1 and len(st.handlers) == 1 and not st.orelse and not st.finalbody:
+                    a, h = st.body[0], st.handlers[0]
+                    if isinstance(a, ast.Assign) and len(a.targets) == 1 and isinstance(a.targets[0], ast.Name) and isinstance(a.value, ast.Attribute) \
+                            and isinstance(a.value.value, ast.Name) and h.name is None and h.type is not None and isinstance(h.type, ast.Name) \
+                            and h.type.id == 'AttributeError' and len(h.body) == 1 and isinstance(h.body[0], ast.Assign) \
+                            and len(h.body[0].targets) == 1 and ast.dump(h.body[0].targets[0]) == ast.dump(a.targets[0]) \
+                            and isinstance(h.body[0].value, (ast.Constant, ast.Name)):
+                        call = ast.Call(func=ast.Name(id='getattr', ctx=ast.Load()),
+                                        args=[a.value.value, ast.Constant(value=a.value.attr), h.body[0].value], keywords=[])
+                        body[i] = ast.copy_location(ast.Assign(targets=[a.targets[0]], value=call), st)
+                        changed = True
+    return changed
+
+
+def _tail_return_dedup(fn):
+    """if c: A; return E        (no else)            if c: A
+       B                                      ->     else: B
+       return E                                      return E          (the two returns are the same expression)"""
+    changed = False
+    for owner in ast.walk(fn):
+        for fld in ('body', 'orelse', 'finalbody'):
+            body = getattr(owner, fld, None)
+            if not (isinstance(body, list) and len(body) >= 2 and isinstance(body[0], ast.stmt)) or isinstance(owner, ast.Lambda):
+                continue
+            last = body[-1]
+            if not (isinstance(last, ast.Return) and last.value is not None):
+                continue
+            for i, st in enumerate(body[:-1]):
+                if isinstance(st, ast.If) and not st.orelse and len(st.body) >= 1 and isinstance(st.body[-1], ast.Return) and st.body[-1].value is not None \
+                        and ast.dump(st.body[-1].value) == ast.dump(last.value) and _total_expr(last.value):
+                    st.body = st.body[:-1] or [ast.Pass()]
+                    st.orelse = body[i + 1:-1] or []
+                    del body[i + 1:-1]
+                    if not st.orelse:
+                        pass
+                    changed = True
+                    break
+    return changed
+
+
 def _return_ifexp(fn):
     """if c: return a else: return b   /   if c: return a; return b      ->   return a if c else b   (values, not bare returns)."""
     changed = False
@@ -1209,6 +1307,7 @@ def helper_expression(g):
         _ifexp_assign(c)
         while _inline_pass(c):
             pass
+        _forward_subst(c)
         _return_ifexp(c)
         if ast.dump(c) == before:
             break
@@ -1270,7 +1369,9 @@ def normal_form(fn, callee_info=None, consts=None):
         while _inline_pass(c):
             pass
         _copy_prop(c)
+        _getattr_default(c)
         _tail_returns(c)
+        _tail_return_dedup(c)
         _return_ifexp(c)
         _list_accumulation(c)
         _ifexp_assign(c)
